@@ -155,6 +155,7 @@ func (g *chainGen) buildLevel(depth int, initial Files, signers []*TestKey, name
 	var rootIDs []string
 	rootcas := JObj{}
 	intercas := JObj{}
+	var needFix []needsCallerFix
 	var callerInters []string
 	_ = callerInters
 	for i := 0; i < nsteps; i++ {
@@ -491,6 +492,7 @@ func (g *chainGen) buildLevel(depth int, initial Files, signers []*TestKey, name
 				info := certInfo(cert, cs.GroundTruthOK)
 				// the chain relies on an intermediate only the caller supplies (ground truth per call)
 				info["needs_caller"] = cs.GroundTruthOK && len(cs.CallerInters) > 0
+				needFix = append(needFix, needsCallerFix{info, cs.CallerInters})
 				ck := map[string]any{"keyid": certLeafKey.ID, "keytype": certLeafKey.Pub.KeyType, "scheme": certLeafKey.Pub.Scheme,
 					"public": certLeafKey.Pub.KeyVal.Public, "private": "", "certificate": pemS}
 				g.w.Certs[pemS] = map[string]any{"key": ck, "info": info}
@@ -528,6 +530,7 @@ func (g *chainGen) buildLevel(depth int, initial Files, signers []*TestKey, name
 				}
 				info := certInfo(cert, cs.GroundTruthOK)
 				info["needs_caller"] = cs.GroundTruthOK && len(cs.CallerInters) > 0
+				needFix = append(needFix, needsCallerFix{info, cs.CallerInters})
 				ck := map[string]any{"keyid": leaf.ID, "keytype": leaf.Pub.KeyType, "scheme": leaf.Pub.Scheme, "public": leaf.Pub.KeyVal.Public, "private": "", "certificate": pemS}
 				g.w.Certs[pemS] = map[string]any{"key": ck, "info": info}
 				g.w.addKeyMaterial(ck)
@@ -616,6 +619,29 @@ func (g *chainGen) buildLevel(depth int, initial Files, signers []*TestKey, name
 	if len(intercas) > 0 {
 		layout = layout.Set("intermediatecas", intercas)
 	}
+	// the steps of one layout choose their chain shapes independently but share the layout's pools: a
+	// certificate whose intermediate "only the caller supplies" does not need the caller when another
+	// step put the same intermediate into the layout (false alarm of the first thorough C10 run)
+	for _, nf := range needFix {
+		if nf.info["needs_caller"] != true {
+			continue
+		}
+		all := true
+		for _, ca := range nf.caller {
+			found := false
+			for _, kv := range intercas {
+				if ko, ok := kv.V.(JObj); ok {
+					if kvv, ok := ko.Get("keyval").(JObj); ok && kvv.Get("certificate") == ca.PEM {
+						found = true
+					}
+				}
+			}
+			all = all && found
+		}
+		if all {
+			nf.info["needs_caller"] = false
+		}
+	}
 	layout = layout.Set("expires", expires)
 	layout = layout.Set("readme", "generated")
 	var specs []sigSpec
@@ -698,6 +724,11 @@ func toIntotoKey(m map[string]any) intoto.Key {
 }
 
 var origWD string
+
+type needsCallerFix struct {
+	info   map[string]any
+	caller []*CA
+}
 
 // runVerify materialises the scenario and calls the library once.  `reuse` (C10 histories) is handled by verifyHistory.
 func materialise(a map[string]any) (layoutPath, linkDir, prodDir, marker string) {
